@@ -143,20 +143,30 @@ PROPS["C06"] = {
 
 PROPS["C19"] = {
     "title": "Arc length is bracketed by chord and control polygon and converges",
-    "gen_modules": ["Basis", "Length"],
-    "corr_n": (5000, 100000),
+    "gen_modules": ["Basis", "Section", "Length", "Walk"],
+    "corr_n": (2000, 40000),
     "search_n": (3000, 60000),
-    "technique": "Lean 4 theorems over any real normed space (bracket by induction on the recursion, halves shrink) on translated chord/polygon/subdivide kernels + Float mirror of the section_length model",
-    "level_text": "For every curve in any real normed space (1-D, 2-D, 3-D), every tolerance and every recursion depth: chord <= curve_length <= control polygon (induction over the subdivision "
-                  "recursion; splitting at 1/2 never lengthens the control polygon nor shortens the chords - triangle inequality on the generated subdivide4), every accepted piece's estimate lies in "
-                  "its own bracket, and reversal leaves chord and polygon of every piece unchanged. chord_length, control_polygon_length, subdivide4 and reverse are regenerated from the Rust source; "
-                  "the section_length loop is a hand model whose Float instance reproduces curve_length to 1e-9 relative on every sampled curve.",
-    "level_note": "Partial: the accuracy numbers (0.1 for e=0.01, 1e-3 for e=1e-8) and additivity within tolerance depend on the input-dependent recursion depth and are covered by the search "
-                  "(20000-segment polyline) only. The stack loop itself is hand-modelled (recursion with fuel 64 >= log2(e/1e-12)). " + COMMON_NOTE,
-    "rule": "curves in a 100-unit box of kinds random, loop, straight, point, coincident controls, cusp/loop; e in {1e-2,1e-4,1e-8}. corr: Float mirror of the model vs curve_length, chord, polygon. "
+    "technique": "Lean 4 theorems (loop invariant + potential function over the generated iterFuel loop; points in any real normed space) about section_length / curve_length translated WHOLE "
+                 "from length.rs (stack loop, CurveSection arithmetic from section.rs) on every run + bit-exact Float mirror of the same generated definitions",
+    "level_text": "section_length and curve_length are regenerated from the Rust source as they are (the `while let Some((section, max_error)) = waiting.pop()` loop over the stack of "
+                  "(CurveSection, tolerance), subsection(0,0.5)/(0.5,1), the MIN_ERROR floor); there is no hand model. Proved for every curve in any real normed space (1-D, 2-D, 3-D), every tolerance and "
+                  "EVERY FUEL (number of iterations granted), in exact real arithmetic: (1) loop invariant (iterFuel_invariant, reusable): total + sum of the waiting pieces' polygons <= polygon of the curve, "
+                  "total + sum of the waiting chords >= chord of the curve, all waiting sections valid - preserved by each iteration (accepted piece: (2c+2p)/4 lies in [c,p]; split piece: the two "
+                  "subsections are the de Casteljau halves of the section's own control points, polygons shrink, chords grow); (2) hence 0 <= curve_length <= control polygon even when the fuel ran out, "
+                  "and chord <= curve_length <= polygon whenever the loop ended with an empty stack; (3) termination/work: for e <= 1e-12*2^D the potential sum(2^(lvl+1)-1) strictly decreases, "
+                  "so 2^(D+1)-1 iterations empty the stack, more fuel never changes the result, every piece ever on the stack sits at depth d <= D with tolerance exactly e/2^d and width 2^-d, "
+                  "and the stack never holds more than D+1 pieces (D = 34/27/14 for e = 1e-2/1e-4/1e-8); (4) the stack loop computes exactly the Gravesen recursion (loop_is_recursion); (5) hence curve_length(reversed curve) = curve_length(curve), "
+                  "besides chord and polygon being reversal invariant. The Float instance of the generated curve_length reproduces the implementation bit for bit on every sampled curve and tolerance.",
+    "level_note": "Partial: the accuracy numbers (0.1 for e=0.01, 1e-3 for e=1e-8) and additivity over a subdivision within tolerance depend on how fast (polygon-chord)^2 falls under the halving tolerance "
+                  "(input dependent) and are covered by the search (20000-segment polyline) only. The iteration bound 2^(D+1)-1 is the worst case of the tolerance floor alone (it uses nothing about the curve: no convergence-rate theorem). "
+                  "Reversal invariance of the value is exact arithmetic only (the search allows 1e-9). " + COMMON_NOTE,
+    "rule": "corr: all 19 curve classes of the search generator (arch, s, loop, cusp, near-line, straight, overshoot, point, coincident control points, closed, two inflections, hairpin, random ...) + corpus, "
+            "a quarter scaled to the full 100-unit box, a few scaled up 1e3..1e6 (these run into the MIN_ERROR floor: tens of thousands of pieces) or down to 1e-9, each at e in {1e-2,1e-4,1e-8}: "
+            "generated curve_length, chord_length, control_polygon_length at Float must equal the implementation's bits. "
             "search: bracket, accuracy against a 20000-segment polyline, reversal, additivity over a random split. Non-trivial: not a point curve; distinct by input.",
-    "trusted_base": ["hand model Model/Length.lean of the section_length stack loop (tied by the Float mirror)"],
-    "assumptions": ["exact real arithmetic in the theorems"],
+    "trusted_base": ["the Float mirror grants the generated loop 4,000,000 iterations where the Rust loop is unbounded (a longer run would show up as a DIFF, not pass); "
+                     "Lemmas/Length.lean restates the loop body once (lengthStep), tied to the generated definition by a kernel-checked rfl lemma (section_length_eq)"],
+    "assumptions": ["exact real arithmetic in the theorems; the depth/work bound uses only halving and comparison of the tolerance, which are exact in binary64 for finite e > 1e-12 (NaN tolerance: see report)"],
 }
 
 PROPS["C15"] = {
